@@ -55,7 +55,7 @@ pub struct Case {
     pub steps: Vec<Step>,
 }
 
-fn stmt_strategy() -> impl Strategy<Value = Stmt> {
+pub fn stmt_strategy() -> impl Strategy<Value = Stmt> {
     prop_oneof![
         4 => (0u8..6, any::<u16>()).prop_map(|(key, tag)| Stmt::UpsertKv { key, tag }),
         2 => (0u8..6, any::<u16>()).prop_map(|(key, tag)| Stmt::UpdateKvA { key, tag }),
